@@ -326,6 +326,13 @@ def main():
         if not okb:
             # the repository no longer builds: nothing can be said; report as broken correspondence
             broken.append(("correspondence", f"harness build ({b})", exe[-800:]))
+            if P.get("runner") != "conc" and ("Send" in exe or "Sync" in exe):
+                # the finders lost Send/Sync (interior mutability): the thread runner no longer compiles.
+                # Build without it so that the search for a failing input can still run.
+                okb2, exe2 = vlib.harness_build(profile=prof, hooks=not b.startswith("plain"), features=feats,
+                                                extra_rustflags=xflags, nothreads=True)
+                if okb2:
+                    builds.append((b, exe2, None))
         else:
             builds.append((b, exe, None))
 
